@@ -379,3 +379,17 @@ fn main() -> ExitCode {
     };
     ExitCode::from(code)
 }
+
+#[cfg(test)]
+mod tests {
+    #[test]
+    fn p30_valid() {
+        for p in crate::props::strs::p30() {
+            let ok = crate::bind::board_of(&p).is_some();
+            println!("{} {:?}", crate::model::text::fen(&p), ok);
+            if !ok {
+                println!("   reasons: {:?}, normal: {}", crate::model::RawPos::from_pos(&p).reasons(), crate::model::is_valid_normal(&p));
+            }
+        }
+    }
+}
